@@ -13,6 +13,7 @@ import (
 	"io"
 	"os"
 	"reflect"
+	"sort"
 	"syscall"
 
 	"github.com/cockroachdb/errors"
@@ -73,6 +74,15 @@ func FamOf(fam string) string {
 	return "F:" + fam
 }
 
+func sortedKeys(m map[string]error) []string {
+	ks := make([]string, 0, len(m))
+	for k := range m {
+		ks = append(ks, k)
+	}
+	sort.Strings(ks)
+	return ks
+}
+
 func unwrapTo(err error, n int) error {
 	for i := 0; i < n; i++ {
 		err = errors.UnwrapOnce(err)
@@ -127,6 +137,7 @@ func init() {
 	reg("uWrapFull", &utypes.UWrapFull{Err: base})
 	reg("uAnnotWrap", &utypes.UAnnotWrap{Err: base})
 	reg("uKeyWrap", &utypes.UKeyWrap{Err: base})
+	reg("uMaybe", &utypes.UMaybe{})
 	reg("uMulti", &utypes.UMulti{Errs: []error{base}})
 	// opaque types, obtained by transferring values of types without decoder
 	hop := func(e error) error {
@@ -146,14 +157,17 @@ func init() {
 	Sentinels["ID_osErrClosed"] = os.ErrClosed
 	Sentinels["ID_ioEOF"] = io.EOF
 	Sentinels["ID_user"] = utypes.UserSentinel
-	for id, e := range Sentinels {
+	// deterministic order; a text shared by two names keeps the first name
+	// (EACCES and os.ErrPermission print the same text: the spec names both
+	// L_osErrPermission)
+	for _, id := range sortedKeys(Sentinels) {
 		if id != "ID_user" {
-			tok.RegisterLiteral("L_"+id[3:], e.Error())
+			tok.RegisterLiteral("L_"+id[3:], Sentinels[id].Error())
 		}
 	}
 	tok.RegisterLiteral("L_ctxDeadline", context.DeadlineExceeded.Error())
-	for name, e := range Errnos {
-		tok.RegisterLiteral("L_errno_"+name, e.Error())
+	for _, name := range []string{"EACCES", "EEXIST", "EINTR", "ENOENT", "EPERM", "ETIMEDOUT"} {
+		tok.RegisterLiteral("L_errno_"+name, Errnos[name].Error())
 	}
 	tok.RegisterLiteral("L_testError", (&errorspb.TestError{}).Error())
 
